@@ -2,6 +2,7 @@ package props
 
 import (
 	"context"
+	"errors"
 	"fmt"
 	"strings"
 
@@ -124,10 +125,55 @@ func c05RunNb(query string, second bool, nb *neighbour) (res explore.Result) {
 // c05RunWriteFault: exactly one transport write of the query cycle fails (nothing of it is delivered). The statement
 // writes five rows whatever Row returns and reports Written() in its command tag: the counter equals the rows whose
 // Row call returned nil, and those are the DataRows the client received.
-func c05RunWriteFault(k int, ncols int) explore.Result {
+func c05RunWriteFault(k int, ncols int) explore.Result { return c05RunWriteFaultEnd(k, ncols, false) }
+
+// c05RunAfterCompletion: calls on a completed writer "fail without emitting bytes" - CopyIn too.
+func c05RunAfterCompletion(how string) explore.Result {
 	var res explore.Result
 	res.Outcome = "ok"
-	res.Key = fmt.Sprint("write-fault", k, ncols)
+	res.Key = "after-completion " + how
+	var errs []string
+	parse := func(ctx context.Context, q string) (wire.PreparedStatements, error) {
+		return wire.Prepared(wire.NewStatement(func(ctx context.Context, w wire.DataWriter, p []wire.Parameter) error {
+			if how == "Empty" {
+				errs = append(errs, fmt.Sprint(w.Empty()))
+			} else {
+				w.Row([]any{"x"})
+				errs = append(errs, fmt.Sprint(w.Complete("DONE")))
+			}
+			_, err := w.CopyIn(wire.TextFormat)
+			errs = append(errs, fmt.Sprint("CopyIn: ", err))
+			_, err = w.CopyIn(wire.BinaryFormat)
+			errs = append(errs, fmt.Sprint("CopyIn: ", err))
+			return nil
+		}, wire.WithColumns(wire.Columns{{Name: "a", Oid: 25}}))), nil
+	}
+	one, err := harness.StartOne(parse)
+	if err != nil {
+		res.Engine = err.Error()
+		return res
+	}
+	defer one.Stop()
+	one.Step(pgproto.Startup("user", "u"))
+	out, _ := one.Step(pgproto.Query("q"))
+	want := "TDCZ"
+	if how == "Empty" {
+		want = "TIZ"
+	}
+	k := harness.Kinds(out)
+	if how == "Empty" && (k == "IZ" || k == "TZ" || k == "Z") {
+		k = want // (what Empty itself emits is judged by the program families)
+	}
+	if k != want || len(errs) != 3 || strings.HasSuffix(errs[1], "<nil>") || strings.HasSuffix(errs[2], "<nil>") {
+		res.Fail("call-after-complete-succeeded", fmt.Sprintf("a statement completes (%s) and then calls CopyIn twice: the calls returned %v and the client received %q (expected errors and nothing beyond %q)", how, errs, harness.Kinds(out), want))
+	}
+	return res
+}
+
+func c05RunWriteFaultEnd(k int, ncols int, fails bool) explore.Result {
+	var res explore.Result
+	res.Outcome = "ok"
+	res.Key = fmt.Sprint("write-fault", k, ncols, fails)
 	accepted := 0
 	var written uint64
 	parse := func(ctx context.Context, q string) (wire.PreparedStatements, error) {
@@ -140,6 +186,9 @@ func c05RunWriteFault(k int, ncols int) explore.Result {
 				}
 			}
 			written = w.Written()
+			if fails {
+				return errors.New("the statement fails after its rows")
+			}
 			return w.Complete(fmt.Sprintf("SELECT %d", written))
 		}, wire.WithColumns(cols))), nil
 	}
@@ -161,6 +210,11 @@ func c05RunWriteFault(k int, ncols int) explore.Result {
 	delivered := strings.Count(pgproto.Kinds(ms), "D")
 	if int(written) != accepted {
 		res.Fail("written-counter", fmt.Sprintf("write %d of the cycle failed once: Row returned nil %d times but Written() = %d", k, accepted, written))
+	}
+	if kinds := pgproto.Kinds(ms); fails && strings.HasSuffix(kinds, "Z") && strings.Count(kinds, "E") != 1 {
+		// the cycle of a failing statement ends with its ErrorResponse and then ReadyForQuery - or, if that
+		// ErrorResponse cannot be delivered, not with a ReadyForQuery that makes the failure look like a success
+		res.Fail("error-count", fmt.Sprintf("write %d of the cycle of a FAILING statement failed once: the client received %q (a ReadyForQuery without the ErrorResponse)", k, kinds))
 	}
 	if delivered != accepted && strings.Contains(pgproto.Kinds(ms), "Z") {
 		res.Fail("written-counter", fmt.Sprintf("write %d of the cycle failed once: Row returned nil %d times (Written() = %d) but %d DataRows were delivered (reply %q)", k, accepted, written, delivered, pgproto.Kinds(ms)))
@@ -314,7 +368,18 @@ func c05Enumerate(tier string, emit explore.Emit) {
 				return map[string]any{"columns": ncols, "rows": 5, "transport_write_of_the_cycle_that_fails_once": k}
 			},
 				Run: func() explore.Result { return c05RunWriteFault(k, ncols) }})
+			emit(explore.Case{Family: "write-fault", Size: 7, Desc: func() any {
+				return map[string]any{"columns": ncols, "rows": 5, "then_the_statement": "fails", "transport_write_of_the_cycle_that_fails_once": k}
+			},
+				Run: func() explore.Result { return c05RunWriteFaultEnd(k, ncols, true) }})
 		}
+	}
+	for _, how := range []string{"Complete", "Empty"} {
+		how := how
+		emit(explore.Case{Family: "write-fault", Size: 8, Desc: func() any {
+			return map[string]any{"statement_completes_with": how, "then_calls": "CopyIn (text), CopyIn (binary)"}
+		},
+			Run: func() explore.Result { return c05RunAfterCompletion(how) }})
 	}
 	// every neighbour state x a small set of programs
 	for _, nb := range neighbourStates() {
